@@ -19,6 +19,15 @@ def run_property(pid, tier):
         return 2
     try:
         expl = mod.run(rep, tier)
+        if tier == "thorough" and not os.environ.get("HV_NO_SELFTEST"):
+            from . import selftest
+            os.environ["HV_NO_SELFTEST"] = "1"
+            cat, res = selftest.run(pid)
+            rep.selftest = {"summary": selftest.summary(res), "results": res}
+            for r in res:
+                if r["status"] in ("MISSED", "NOISY", "ERROR"):
+                    rep.error("selftest", "%s: %s %s" % (r["id"], r["status"], r.get("first") or r.get("why")))
+            print("selftest %s: %s" % (pid, selftest.summary(res)))
         return rep.finish(expl or mod.__doc__ or pid)
     except AnalysisError as e:
         rep.error("anchor", str(e))
